@@ -34,6 +34,13 @@ type entry struct {
 	// layout); every other seed must be accepted unmodified, or the sweep from it would be vacuous
 	rejects []string
 	chunk   int // positions per case (default 256); smaller for entry points that cost milliseconds
+	// text: the text-grammar mutator applies (quick: 16 characters, thorough: 36): set for the entry points that
+	// hand the bytes to the X.509 / CSR / CRL / PEM / escrow parsers directly; containers that embed certificates
+	// reach the same sub-parsers
+	text bool
+	// signed: the seeds are authenticated artefacts (names.go): only the DER-tree mutators, which re-sign,
+	// apply; swept by the workload c13.names
+	signed bool
 }
 
 func catalogue(w *world) []*entry {
@@ -190,7 +197,59 @@ func catalogue(w *world) []*entry {
 		c.Equal(w.leaf)
 		c.ToX509()
 		return true
+	}).text = true
+	// the certificates of the names PKI (names.go), whose values feed the hand-written string sub-parsers. Without a
+	// fresh signature chain building stops at the first link, so these entry points parse and match host names only;
+	// verification of the same certificates is driven by the authenticated entry points below
+	add("smx509.ParseCertificate+VerifyHostname", S("x509.names.ca", "x509.names.leaf", "x509.names.leaf2", "x509.cert.ed25519", "x509.cert.x25519", "x509.cert.dsa"), func(b []byte) bool {
+		c, err := smx509.ParseCertificate(b)
+		if err != nil {
+			return false
+		}
+		w.hostnames(c)
+		return true
+	}).text = true
+	// a hostile trust anchor (a root's own signature is never checked): the genuine intermediate, which has names of all four kinds, below it
+	add("smx509.ParseCertificate+Verify/as-trust-anchor", S("x509.names.root"), func(b []byte) bool {
+		c, err := smx509.ParseCertificate(b)
+		if err != nil {
+			return false
+		}
+		roots := smx509.NewCertPool()
+		roots.AddCert(c)
+		w.nameCA.Verify(smx509.VerifyOptions{Roots: roots, CurrentTime: w.now, KeyUsages: []smx509.ExtKeyUsage{smx509.ExtKeyUsageAny}})
+		// the self-issued hostile certificate against the genuine anchor it imitates (same subject and key: the
+		// chain builder's loop protection compares names)
+		c.Verify(smx509.VerifyOptions{Roots: w.namePool, CurrentTime: w.now, KeyUsages: []smx509.ExtKeyUsage{smx509.ExtKeyUsageAny}})
+		return true
+	}).text = true
+	// hostile certificates that carry a valid signature of their issuer (every mutant is re-signed by the harness):
+	// chain building gets past the signature check and runs the name-constraint sub-parsers on the hostile values
+	sg := add("smx509.ParseCertificate+Verify/authenticated-leaf", S("x509.names.leaf.signed", "x509.names.leaf2.signed"), func(b []byte) bool {
+		c, err := smx509.ParseCertificate(b)
+		if err != nil {
+			return false
+		}
+		w.verifyNames(c, w.namePool, w.nameInter)
+		return true
 	})
+	sg.signed, sg.chunk = true, 64
+	sg = add("smx509.ParseCertificate+Verify/authenticated-intermediate", S("x509.names.ca.signed"), func(b []byte) bool {
+		c, err := smx509.ParseCertificate(b)
+		if err != nil {
+			return false
+		}
+		// the genuine leaf below the hostile intermediate; the hostile certificate's own names against the root's constraints
+		inter := smx509.NewCertPool()
+		inter.AddCert(c)
+		w.nameLeaf.Verify(smx509.VerifyOptions{Roots: w.namePool, Intermediates: inter, CurrentTime: w.now, KeyUsages: []smx509.ExtKeyUsage{smx509.ExtKeyUsageAny}})
+		if len(c.Signature) > 0 && c.Signature[len(c.Signature)-1]&1 == 0 {
+			// (pseudo-randomly every other mutant: one more signature verification)
+			c.Verify(smx509.VerifyOptions{Roots: w.namePool, CurrentTime: w.now, KeyUsages: []smx509.ExtKeyUsage{smx509.ExtKeyUsageAny}})
+		}
+		return true
+	})
+	sg.signed, sg.chunk = true, 64
 	add("smx509.ParseCertificates", S("x509.certs.two"), func(b []byte) bool {
 		_, err := smx509.ParseCertificates(b)
 		return err == nil
@@ -199,10 +258,18 @@ func catalogue(w *world) []*entry {
 		_, err := smx509.ParseCertificatePEM(b)
 		return err == nil
 	})
-	add("smx509.CertPool.AppendCertsFromPEM", S("x509.cert.leaf.pem"), func(b []byte) bool {
-		return smx509.NewCertPool().AppendCertsFromPEM(b)
+	add("smx509.CertPool.AppendCertsFromPEM", S("x509.cert.leaf.pem", "x509.names.root.pem"), func(b []byte) bool {
+		pool := smx509.NewCertPool()
+		if !pool.AppendCertsFromPEM(b) {
+			return false
+		}
+		// the pool parses lazily: its certificates are materialised by the first chain built against it
+		w.nameCA.Verify(smx509.VerifyOptions{Roots: pool, CurrentTime: w.now, KeyUsages: []smx509.ExtKeyUsage{smx509.ExtKeyUsageAny}})
+		pool.Subjects()
+		pool.Clone()
+		return true
 	})
-	add("smx509.ParseCertificateRequest+CheckSignature", S("x509.csr.sm2", "x509.csr.rsa", "x509.csr.cfca.sm2"), func(b []byte) bool {
+	add("smx509.ParseCertificateRequest+CheckSignature", S("x509.csr.sm2", "x509.csr.rsa", "x509.csr.cfca.sm2", "x509.names.csr"), func(b []byte) bool {
 		c, err := smx509.ParseCertificateRequest(b)
 		if err != nil {
 			return false
@@ -210,41 +277,43 @@ func catalogue(w *world) []*entry {
 		c.CheckSignature()
 		c.ToX509()
 		return true
-	})
+	}).text = true
 	add("smx509.ParseCertificateRequestPEM", S("x509.csr.sm2.pem"), func(b []byte) bool {
 		_, err := smx509.ParseCertificateRequestPEM(b)
 		return err == nil
 	})
-	add("smx509.ParseCFCACertificateRequest", S("x509.csr.cfca.sm2", "x509.csr.cfca.rsa", "x509.csr.sm2"), func(b []byte) bool {
+	add("smx509.ParseCFCACertificateRequest", S("x509.csr.cfca.sm2", "x509.csr.cfca.rsa", "x509.csr.sm2", "x509.names.csr.cfca"), func(b []byte) bool {
 		c, err := smx509.ParseCFCACertificateRequest(b)
 		if err != nil {
 			return false
 		}
 		c.CheckSignature()
 		return true
-	})
-	add("smx509.ParseRevocationList+CheckSignatureFrom", S("x509.crl"), func(b []byte) bool {
+	}).text = true
+	add("smx509.ParseRevocationList+CheckSignatureFrom", S("x509.crl", "x509.names.crl"), func(b []byte) bool {
 		c, err := smx509.ParseRevocationList(b)
 		if err != nil {
 			return false
 		}
 		c.CheckSignatureFrom(w.root)
+		c.CheckSignatureFrom(w.nameCA)
 		c.ToX509()
 		return true
-	})
-	add("smx509.ParseCRL+CheckCRLSignature", S("x509.crl", "x509.crl.pem"), func(b []byte) bool {
+	}).text = true
+	add("smx509.ParseCRL+CheckCRLSignature", S("x509.crl", "x509.crl.pem", "x509.names.crl"), func(b []byte) bool {
 		c, err := smx509.ParseCRL(b)
 		if err != nil {
 			return false
 		}
 		w.root.CheckCRLSignature(c)
+		w.nameCA.CheckCRLSignature(c)
 		return true
 	})
 	add("smx509.ParseDERCRL", S("x509.crl"), func(b []byte) bool {
 		_, err := smx509.ParseDERCRL(b)
 		return err == nil
 	})
-	add("smx509.ParsePKIXPublicKey", S("key.pkix.sm2", "key.pkix.rsa", "key.pkix.ecdsa"), func(b []byte) bool {
+	add("smx509.ParsePKIXPublicKey", S("key.pkix.sm2", "key.pkix.rsa", "key.pkix.ecdsa", "key.pkix.ed25519", "key.pkix.x25519", "key.pkix.dsa"), func(b []byte) bool {
 		_, err := smx509.ParsePKIXPublicKey(b)
 		return err == nil
 	})
@@ -286,7 +355,7 @@ func catalogue(w *world) []*entry {
 		_, err := smx509.DecryptPEMBlock(blk, w.pw)
 		smx509.DecryptPEMBlock(blk, w.wrongPw)
 		return err == nil
-	})
+	}).text = true
 	{
 		// the payload bytes of an encrypted block, with the genuine headers
 		blk, _ := pem.Decode(w.get("pemenc.sm4").data)
@@ -460,7 +529,7 @@ func catalogue(w *world) []*entry {
 	add("cfca.ParseEscrowPrivateKey", S("cfca.escrow.bare", "cfca.escrow.prefixed"), func(b []byte) bool {
 		_, err := cfca.ParseEscrowPrivateKey(w.sm2B, b)
 		return err == nil
-	})
+	}).text = true
 	add("cfca.ParseCertificateRequest", S("cfca.csr", "x509.csr.cfca.rsa"), func(b []byte) bool {
 		c, err := cfca.ParseCertificateRequest(b)
 		if err != nil {
@@ -468,7 +537,7 @@ func catalogue(w *world) []*entry {
 		}
 		c.CheckSignature()
 		return true
-	})
+	}).text = true
 	add("cfca.OpenEnvelopedMessage", S("cfca.enveloped", "cfca.enveloped.gcm", "cfca.enveloped.legacy"), func(b []byte) bool {
 		_, err := cfca.OpenEnvelopedMessage(b, w.leaf, w.sm2B)
 		return err == nil
@@ -584,6 +653,67 @@ func catalogue(w *world) []*entry {
 		_, err := sm9.UnmarshalEncryptPrivateKeyRaw(b)
 		return err
 	})
+	// user keys decoded from hostile bytes and then USED: the forms without the master public key (the ones
+	// MarshalASN1 writes) give key objects that cannot sign or run the exchange; every use must return
+	useSign := func(k *sm9.SignPrivateKey) {
+		k.Sign(w.kxRand("sm9.use.sign"), w.digest, nil)
+		sm9.SignASN1(w.kxRand("sm9.use.sign2"), k, w.digest)
+		if mp := k.MasterPublic(); mp != nil {
+			mp.MarshalASN1()
+		}
+		k.MarshalASN1()
+		k.MarshalCompressedASN1()
+		k.Bytes()
+		k.Equal(w.signUser)
+	}
+	useEnc := func(k *sm9.EncryptPrivateKey) {
+		ke := k.NewKeyExchange(w.uid, w.uidB, 16, true)
+		ke.InitKeyExchange(w.kxRand("sm9.use.kx"), 3)
+		ke.Destroy()
+		rsp := k.NewKeyExchange(w.uid, w.uidB, 16, false)
+		if ra, err := w.encUserB.NewKeyExchange(w.uidB, w.uid, 16, false).InitKeyExchange(w.kxRand("sm9.use.kx2"), 3); err == nil {
+			rsp.RespondKeyExchange(w.kxRand("sm9.use.kx3"), 3, ra)
+		}
+		if mp := k.MasterPublic(); mp != nil {
+			mp.MarshalASN1()
+		}
+		k.MarshalASN1()
+		k.MarshalCompressedASN1()
+		k.Bytes()
+		k.Equal(w.encUser)
+	}
+	slow(add("sm9.UnmarshalSignPrivateKeyASN1+use", S("sm9.key.signpriv.asn1", "sm9.key.signpriv.asn1c"), func(b []byte) bool {
+		k, err := sm9.UnmarshalSignPrivateKeyASN1(b)
+		if err != nil {
+			return false
+		}
+		useSign(k)
+		return true
+	}))
+	slow(add("sm9.UnmarshalSignPrivateKeyRaw+use", S("sm9.key.signpriv.raw"), func(b []byte) bool {
+		k, err := sm9.UnmarshalSignPrivateKeyRaw(b)
+		if err != nil {
+			return false
+		}
+		useSign(k)
+		return true
+	}))
+	slow(add("sm9.UnmarshalEncryptPrivateKeyASN1+use", S("sm9.key.encpriv.asn1", "sm9.key.encpriv.asn1c"), func(b []byte) bool {
+		k, err := sm9.UnmarshalEncryptPrivateKeyASN1(b)
+		if err != nil {
+			return false
+		}
+		useEnc(k)
+		return true
+	}))
+	slow(add("sm9.UnmarshalEncryptPrivateKeyRaw+use", S("sm9.key.encpriv.raw"), func(b []byte) bool {
+		k, err := sm9.UnmarshalEncryptPrivateKeyRaw(b)
+		if err != nil {
+			return false
+		}
+		useEnc(k)
+		return true
+	}))
 	slow(add("sm9.KeyExchange.RespondKeyExchange", S("sm9.kx.rA"), func(b []byte) bool {
 		rsp := w.encUserB.NewKeyExchange(w.uidB, w.uid, 16, true)
 		defer rsp.Destroy()
